@@ -4,7 +4,12 @@
 # coq/FS/Exf.v through ml/driver_exf.ml (T2: every answer line must be identical), and are judged by
 # (3) the oracle below: a flat python bytearray + size rules, written from the property statement and the
 # header documentation, sharing no code with the model.
-import os, json, hashlib, shutil
+#
+# OS-refusal injection (round 4): the script command `limit <n>` lowers RLIMIT_FSIZE of the harness process to n bytes
+# (SIGXFSZ ignored; `limit -1` lifts it), so every ftruncate/fallocate/write beyond n fails with EFBIG.  The model gets
+# the same oracle (`os_limit n`), the python oracle refuses every growth beyond n: the call must answer IOERR and the
+# size, the file on disk, the windows and every byte must be what they were; close + reopen must see that size.
+import os, json, hashlib, shutil, copy
 from concurrent.futures import ThreadPoolExecutor
 import vlib
 
@@ -47,6 +52,14 @@ class Oracle:
         self.maxoff = 0
         self.pol = ("def",)
         self.prev = 0
+        self.lim = None  # RLIMIT_FSIZE in force (bytes) or None
+        self.maplim = False  # opt-in scripts: an address-space limit is in force (a window may fail to grow)
+        self.mapfailed = False  # ... and a call has answered ERRNO under it: windows may be unmapped from now on
+
+    def refused(self, n, cur=None):
+        """the operating system does not let the file grow to n bytes"""
+        cur = self.size if cur is None else cur
+        return self.lim is not None and n > cur and n > self.lim
 
     @property
     def size(self):
@@ -101,6 +114,8 @@ class Oracle:
             n = self.maxoff
             if n < sz:
                 return "MAXOFF"
+        if self.refused(n):
+            return "IOERR"  # nothing changes (the policy was consulted: its context may have advanced)
         self.resize(n)
         return "OK"
 
@@ -116,6 +131,13 @@ class Oracle:
     # -- one call; returns the expectation: dict(rc=[allowed names], sp, data, mask, probe)
     def apply(self, t):
         op = t[0]
+        if op == "limit":
+            v = int(t[1])
+            self.lim = None if v < 0 else v
+            return {"rc": ["OK"], "raw": not self.opened}
+        if op == "maplimit":
+            self.maplim = int(t[1]) >= 0
+            return {"rc": ["OK"], "raw": not self.opened}
         if op == "open":
             trunc, isz, mo = int(t[1]), int(t[2]), int(t[3])
             if self.opened:
@@ -134,6 +156,8 @@ class Oracle:
                     return {"rc": ["MAXOFF"]}
             elif size0 % PS:
                 n = rup(size0)
+            if self.refused(n, size0):
+                return {"rc": ["IOERR"]}  # no handle; the file keeps what it had (nothing, if it was truncated)
             self.data = bytearray(self.kernel); self.unk = bytearray(self.kunk); self.pd = bytearray(size0)
             self.opened = True
             self.resize(n)
@@ -174,6 +198,8 @@ class Oracle:
             n = rup(int(t[1]))
             if n > self.size and self.maxoff and n > self.maxoff:
                 return {"rc": ["MAXOFF"]}
+            if self.refused(n):
+                return {"rc": ["IOERR"]}
             self.resize(n)
             return {"rc": ["OK"]}
         if op == "ensure":
@@ -244,9 +270,16 @@ def judge(o, t, e, line):
         return "no answer / wrong answer line: %r" % line
     if len(f) > 1 and f[1] == "CRASH":
         return "the call crashed (signal inside the library)"
+    if len(f) > 1 and f[1] == "SIGBUS":
+        return "SIGBUS: the call read a mapped page that lies beyond the end of the file (a window is longer than the file)"
     if e.get("raw"):
         return None if f[1] == e["rc"][0] else "expected %s" % e["rc"][0]
     if f[1] not in e["rc"]:
+        if e["rc"] == ["IOERR"]:
+            return ("rc %s, but the operating system refuses this growth (RLIMIT_FSIZE=%s): expected IOERR and an "
+                    "unchanged file; reported fsize=%s, file on disk %s bytes"
+                    % (f[1], o.lim, dict(x.split("=") for x in f if "=" in x).get("fsize"),
+                       dict(x.split("=") for x in f if "=" in x).get("stat")))
         return "rc %s, expected %s" % (f[1], "/".join(e["rc"]))
     kv = dict(x.split("=") for x in f if "=" in x)
     fsize, stat = int(kv.get("fsize", "-2")), int(kv.get("stat", "-2"))
@@ -263,6 +296,8 @@ def judge(o, t, e, line):
         return "transferred %s bytes, expected %d" % (f[2], e["sp"])
     if "probe" in e and int(f[2]) != e["probe"]:
         return "window length %s, expected %d" % (f[2], e["probe"])
+    if "probe" in e and e["probe"] and f[1] != "OK":
+        return "rc %s for a mapped window" % f[1]
     if "data" in e:
         got = bytes.fromhex(f[3]) if f[3] != "-" else b""
         if len(got) != len(e["data"]):
@@ -278,9 +313,19 @@ def run_oracle(script, out):
     o = Oracle()
     for i, l in enumerate(script):
         t = l.split()
+        snap = copy.deepcopy(o) if o.maplim and t[0] in ("ensure", "truncate", "write", "copy") else None
         e = o.apply(t)
         if i >= len(out):
             return i, "no answer (harness died)"
+        if snap is not None and out[i].split()[1:2] == ["ERRNO"]:
+            # opt-in mmap-refusal scripts: the call may fail because a window cannot follow; then nothing may have changed
+            o = snap
+            o.mapfailed = True
+            e = {"rc": ["ERRNO"]}
+            if t[0] == "write":
+                e["sp"] = 0
+        if o.mapfailed and t[0] == "probe" and out[i].split()[1:3] == ["NOTMM", "0"]:
+            e = {"rc": ["NOTMM"], "probe": 0}  # a window that could not be mapped again is served through the file
         why = judge(o, t, e, out[i])
         if why:
             return i, why
@@ -331,6 +376,14 @@ def gen_script(rng, run):
             o.finish_copy(e, "OK" if e["rc"] == ["OK"] else "OVERFLOW")
         return e
 
+    def copy_line(off, n, noff):
+        # a copy onto itself through a MAP_PRIVATE window is memmove(p, p, n): whether libc stores anything (and so detaches
+        # the pages from the file) depends on n and on the libc build (glibc returns early above 8 vector widths); the
+        # property says nothing about it and the model would have to know the libc - such a call is not generated
+        if noff == off and any(w.priv for w in o.wins):
+            noff = off + 1
+        return "copy %d %d %d" % (off, n, noff)
+
     def open_line(trunc):
         pol = rng.choice(POLS)
         isz = rng.choice([0, 0, 0, 1, PS - 1, PS, PS + 1, 2 * PS, 3 * PS, 5 * PS])
@@ -366,11 +419,81 @@ def gen_script(rng, run):
             emit("addmm %d %d %d" % (at, ln - rng.choice([0, 0, 1, PS - 1]), flags()))
             at += ln + rng.choice([0, 0, PS, 2 * PS])
     nops = rng.range(12, 40)
-    for _ in range(nops):
+    # OS-refusal episode: at a chosen point RLIMIT_FSIZE is lowered to a value at or a little above the current size;
+    # the following calls ask for growth beyond it (and within it), each refused call is followed by a look at the size,
+    # every window and the bytes; then the limit is lifted and the same kind of request must succeed.
+    faulty = rng.chance(1, 3)
+    run.dist("refusal-episode:" + ("yes" if faulty else "no"))
+    start_at = rng.range(0, max(0, nops - 6)) if faulty else -1
+    left = 0
+
+    def look():
+        emit("state")
+        for w in list(o.wins)[:4]:
+            emit("probe %d" % w.off)
+        emit("read %d %d" % (max(0, o.size - PS - 1), 2 * PS + 2))
+        if rng.chance(1, 3):
+            emit("read 0 %d" % min(o.size, 5 * PS))
+
+    def beyond():
+        L = o.lim if o.lim is not None else o.size
+        return rng.choice([L + 1, L + 1, rup(L) + 1, L + PS, L + PS + 1, L + 3 * PS, o.size + 1, rup(L), L])
+
+    def refusal_op():
+        k = rng.weighted([("ensure", 5), ("truncate", 4), ("write", 6), ("copy", 4), ("addmm", 3), ("within", 3), ("reopen", 1), ("misc", 3)])
+        run.dist("refusal-op:" + k)
+        if k == "ensure":
+            e = emit("ensure %d" % beyond())
+        elif k == "truncate":
+            e = emit("truncate %d" % beyond())
+        elif k == "write":
+            n = rng.choice([1, 3, PS, PS + 1, 2 * PS + 5])
+            off = max(0, beyond() - rng.choice([0, 1, n, n - 1, n + 1, PS]))
+            e = emit("write %d %s" % (off, stream(rng.u64(), n).hex()))
+        elif k == "copy":
+            n = rng.choice([1, 3, PS, PS + 1])
+            e = emit(copy_line(pick_off(rng, o, max(0, o.size - 1)), n, max(0, beyond() - rng.choice([0, 1, n]))))
+        elif k == "addmm":  # a window at or past the end of the file: registered, nothing mapped
+            off = rup(o.size) + rng.choice([0, 0, PS, 2 * PS])
+            e = emit("addmm %d %d %d" % (off, rng.choice([PS, 2 * PS, HUGE[1]]), flags()))
+            emit("probe %d" % off)
+        elif k == "misc":  # calls that shrink, remap or sync: the limit does not concern them
+            e = emit(rng.choice(["sync", "remap", "truncate %d" % max(0, o.size - rng.choice([1, PS, 2 * PS])),
+                                 "rmmm %d" % (rng.choice(o.wins).off if o.wins else 0)]))
+        elif k == "within":  # growth the limit allows
+            L = o.lim if o.lim is not None else o.size
+            e = emit(rng.choice(["ensure %d", "truncate %d"]) % max(0, L // PS * PS - rng.choice([0, 0, 1, PS])))
+        else:
+            emit("close")
+            e = emit(open_line(0))
+        if e.get("rc") == ["IOERR"]:
+            run.dist("refused-call:" + lines[-1].split()[0])
+            if o.opened:
+                look()
+
+    for it in range(nops):
         lim = min(12 * PS, o.maxoff + 1) if o.maxoff and not rng.chance(1, 6) else 12 * PS
         if not o.opened:
             emit(open_line(0))
+            if it == start_at:
+                start_at += 1
             continue
+        if it == start_at:
+            emit("limit %d" % (o.size + rng.choice([0, 0, 0, 1, PS - 1, PS, PS, PS + 1, 2 * PS, 3 * PS + 100])))
+            left = rng.range(3, 9)
+        if left > 0:
+            left -= 1
+            if rng.chance(3, 4):
+                refusal_op()
+                if left == 0:
+                    L = o.lim
+                    emit("limit -1")
+                    if o.opened and rng.chance(1, 2):  # the request that was refused is granted now
+                        emit("ensure %d" % (L + rng.choice([1, PS, 2 * PS])))
+                        look()
+                continue
+            if left == 0:
+                emit("limit -1")
         k = rng.weighted([("write", 30), ("read", 26), ("copy", 10), ("truncate", 7), ("ensure", 5), ("addmm", 5),
                           ("rmmm", 3), ("probe", 3), ("sync", 1), ("remap", 1), ("state", 1), ("reopen", 3), ("edge", 2)])
         run.dist("op:" + k)
@@ -387,7 +510,7 @@ def gen_script(rng, run):
             off = pick_off(rng, o, lim)
             n = min(pick_len(rng, o, off, lim), 2 * PS + 3)
             noff = rng.choice([pick_off(rng, o, lim), max(0, off + rng.choice([-n - 1, -n, -n + 1, -1, 1, n - 1, n, n + 1]))])
-            emit("copy %d %d %d" % (off, n, noff))
+            emit(copy_line(off, n, noff))
         elif k == "truncate":
             emit("truncate %d" % pick_off(rng, o, lim))
         elif k == "ensure":
@@ -410,12 +533,155 @@ def gen_script(rng, run):
             emit(rng.choice(["write -1 aa", "write %d aabbcc" % (OFFMAX - 1), "read -5 3", "read %d 9" % (OFFMAX - 3),
                              "read %d 7" % (o.size + rng.choice([0, 1, PS])), "write %d 0102" % (1 << 62) if o.maxoff else "state",
                              "ensure 0", "truncate 0"]))
+    if o.lim is not None:
+        if o.opened and rng.chance(1, 2):  # what the next open sees while the limit is still in force
+            emit("close")
+            emit("open 0 0 0 def")
+            if o.opened:
+                emit("read 0 %d" % min(o.size, 5 * PS))
+        emit("limit -1")
     if o.opened and rng.chance(1, 2):
         emit("read 0 %d" % min(o.size, 5 * PS))
         emit("close")
         emit("open 0 0 0 def")
         emit("read 0 %d" % min(len(o.kernel), 5 * PS))
     return lines
+
+
+# directed family: every way to ask for growth x every resize policy x window layouts, under a limit at/just above the size
+REF_POLS = [["def"], ["fibo"], ["mul", "3", "2"], ["mul", "2", "1"], ["muln"]]
+REF_LAYOUTS = ["none", "whole", "whole-private", "first+past-end", "several"]
+REF_KINDS = ["ensure", "truncate", "write", "write-gap", "copy", "open-initial"]
+
+
+def refusal_script(rng, run, pol, layout, kind):
+    o = Oracle()
+    lines = []
+
+    def emit(l):
+        lines.append(l)
+        e = o.apply(l.split())
+        if l.startswith("copy"):
+            o.finish_copy(e, "OK" if e["rc"] == ["OK"] else "OVERFLOW")
+        return e
+
+    def look():
+        emit("state")
+        for w in list(o.wins):
+            emit("probe %d" % w.off)
+        emit("read %d %d" % (max(0, o.size - 3 * PS), 4 * PS))
+        emit("read 0 64")
+
+    k0 = rng.range(1, 3)
+    mo = rng.choice([0, 0, 16 * PS, 9 * PS + 1])
+    emit("open 1 %d %d %s" % (k0 * PS - rng.choice([0, 1]), mo, " ".join(pol)))
+    if layout == "whole":
+        emit("addmm 0 %d 0" % HUGE[1])
+    elif layout == "whole-private":
+        emit("addmm 0 %d 1" % HUGE[1])
+    elif layout == "first+past-end":
+        emit("addmm 0 %d 0" % PS)
+        emit("addmm %d %d 0" % (o.size + PS, 2 * PS))
+    elif layout == "several":
+        emit("addmm 0 %d 0" % PS)
+        emit("addmm %d %d 1" % (PS, 2 * PS))
+        emit("addmm %d %d 0" % (4 * PS, HUGE[0]))
+    emit("write 10 %s" % stream(rng.u64(), 40).hex())
+    emit("write %d %s" % (o.size - 3, stream(rng.u64(), 3).hex()))
+    if pol[0] == "fibo" and rng.chance(1, 2):
+        emit("ensure %d" % (o.size + 1))  # gives the fibonacci context a history
+    L = o.size + rng.choice([0, 0, 1, PS - 1, PS, PS + 1, 2 * PS])
+    emit("limit %d" % L)
+    want = rng.choice([L + 1, rup(L) + 1, L + PS, L + 4 * PS + 7])
+    if kind == "ensure":
+        emit("ensure %d" % want)
+    elif kind == "truncate":
+        emit("truncate %d" % want)
+    elif kind == "write":
+        emit("write %d %s" % (want - 1, stream(rng.u64(), rng.choice([1, 2, PS + 1])).hex()))
+    elif kind == "write-gap":
+        emit("write %d %s" % (o.size - 2, stream(rng.u64(), want - o.size + 2 if want - o.size < 3 * PS else 2 * PS).hex()))
+        emit("ensure %d" % want)
+    elif kind == "copy":
+        emit("copy 8 %d %d" % (rng.choice([1, 16, 40]), want - 1))
+    elif kind == "open-initial":
+        emit("close")
+        emit("open 0 %d %d %s" % (want, mo, " ".join(pol)))
+        if not o.opened:
+            emit("open 0 0 %d %s" % (mo, " ".join(pol)))
+            if layout != "none":
+                emit("addmm 0 %d 0" % HUGE[1])
+    run.dist("refusal-directed:" + kind)
+    look()
+    emit("sync")
+    emit("remap")
+    emit("addmm %d %d 0" % (rup(o.size) + 2 * PS * len(o.wins) + 8 * PS, PS))  # a window past the end, nothing mapped
+    look()
+    if rng.chance(1, 2) and L // PS * PS > o.size:
+        emit("ensure %d" % (L // PS * PS))  # may be refused too when the policy asks for more than the limit
+        look()
+    if rng.chance(1, 2):  # next open under the limit, then without
+        emit("close")
+        emit("open 0 0 0 def")
+        look()
+    emit("limit -1")
+    emit("ensure %d" % want)
+    look()
+    emit("close")
+    emit("open 0 0 0 def")
+    emit("read 0 %d" % (len(o.kernel) + 1))
+    return lines
+
+
+# ------------------------------------------------------------------------------------------------
+# mmap refusal (VERIF_C12_MAPFAIL=0 switches it off).  `maplimit <d>` (RLIMIT_AS = current + d) makes a window growth of
+# more than d bytes fail with ENOMEM.  The library had a confirmed defect here, repaired by 70a7dcd (notes/exf.md,
+# fixes/exf-mmap-failed-growth.diff); the Coq model does not represent mmap failures: these scripts are run on the
+# implementation only and judged by the oracle: a call that answers an error must leave size, file and bytes unchanged,
+# and nothing may fault afterwards.
+def mapfail_scripts():
+    big, slack = 64 << 20, 4 << 20
+    layouts = [["addmm 0 %d 0" % HUGE[1]], ["addmm 0 %d 0" % PS, "addmm %d %d 0" % (PS, HUGE[0])],
+               ["addmm %d %d 2" % (PS, HUGE[0])]]
+    grows = ["ensure %d" % big, "truncate %d" % big, "write %d aa" % (big - 1), "copy 0 5 %d" % (big - 5)]
+    out = []
+    for lay in layouts:
+        probes = ["probe %s" % a.split()[1] for a in lay]
+        for g in grows:
+            out.append(["open 1 %d 0 def" % (2 * PS)] + lay +
+                       ["write 0 68656c6c6f", "write %d 0102" % (2 * PS - 2), "maplimit %d" % slack, g, "state"] + probes +
+                       ["read 0 5", "read %d 4" % (2 * PS - 3), "write 3 ff", "read 0 5", "maplimit -1", "remap"] + probes +
+                       ["ensure %d" % (3 * PS), "read 0 5", "read %d 4" % (2 * PS - 3), "close", "open 0 0 0 def", "read 0 5"])
+    return out
+
+
+def leak_check(run, impl, tmp):
+    """a failed open keeps nothing: the descriptor count of the process is the same before and after opens that fail
+    after the file itself was opened (initial size beyond maxoff; initial growth refused by the operating system) - ab38eae"""
+    s = ["nfd"] + ["open 1 %d %d def" % (8 * PS, 2 * PS)] * 5 + ["limit %d" % (2 * PS)] + ["open 1 %d 0 def" % (8 * PS)] * 5 + ["limit -1", "nfd"]
+    rc, out, err = vlib.run_lines([impl, tmp], "\n".join(s) + "\n", timeout=120)
+    run.dist("open-fail-leak-script")
+    out = [l for l in out if l.strip()]
+    fails = [l for l in out[1:6] + out[7:12] if l.split()[1:2] == ["OK"]]
+    if len(out) < len(s) or fails:
+        run.broken.append("C12 leak script: the opens meant to fail did not (%r)" % (out[:13],))
+    elif out[0] != out[-1]:
+        run.violation({"script": s, "impl": [out[0], out[-1]], "kind": "open-fail-leak"},
+                      "ten failed opens left descriptors behind: %s before, %s after" % (out[0], out[-1]))
+
+
+def mapfail_check(run, impl):
+    scripts = mapfail_scripts()
+    tmp = "/tmp/exf-mapfail-%d.dat" % os.getpid()
+    leak_check(run, impl, tmp)
+    for s in scripts:
+        rc, out, err = vlib.run_lines([impl, tmp], "\n".join(s) + "\n", timeout=300)
+        run.dist("mapfail-script")
+        v = run_oracle(s, out)
+        if v and len(run.violations) < 5:
+            j, why = v
+            run.violation({"script": s[:j + 1], "failing_op": s[j][:200], "impl": out[j] if j < len(out) else None,
+                           "kind": "mmap-refusal"}, "op %d `%s`: %s" % (j, s[j][:80], why))
 
 
 # ------------------------------------------------------------------------------------------------
@@ -474,8 +740,15 @@ def check(run):
         N *= 10
     scripts = corpus_scripts()
     ncorp = len(scripts)
+    for rep_ in range(1 if run.tier == "quick" and proofs_ok else 6):
+        for pol in REF_POLS:
+            for layout in REF_LAYOUTS:
+                for kind in REF_KINDS:
+                    scripts.append(refusal_script(rng.fork(), run, pol, layout, kind))
     for _ in range(N):
         scripts.append(gen_script(rng.fork(), run))
+    if os.environ.get("VERIF_C12_MAPFAIL") != "0":
+        mapfail_check(run, impl)
     res_i, res_m, errs = run_scripts(impl, model, scripts, "c12")
     for e in errs[:2]:
         run.broken.append("T2 harness: " + e)
@@ -505,14 +778,20 @@ def check(run):
         run.broken.append("T2 correspondence: %d of %d scripts differ, first: script %d op %d `%s` impl=`%s` model=`%s`"
                           % ((nmis, len(scripts)) + first))
     return run.finish(level=LEVEL,
-                      rule="a case is one script of 12-45 calls (open with initial size/maxoff/policy, window layout none/"
+                      rule="a case is one script of 12-90 calls (open with initial size/maxoff/policy, window layout none/"
                            "whole/first/partial/several, shared or private, then writes/reads/copies/truncations/size requests/"
                            "window additions and removals/close+reopen with offsets and lengths placed -1/0/+1 around window "
-                           "edges, EOF, maxoff and page boundaries); distinct = distinct script text",
+                           "edges, EOF, maxoff and page boundaries; one script in three has an OS-refusal episode: RLIMIT_FSIZE "
+                           "lowered to the size + {0,1,page-1,page,...}, growth requests of every kind beyond and within it, "
+                           "a look at size/windows/bytes after every refused call, limit lifted, reopen; plus the directed "
+                           "family policy x layout x kind of growth request); distinct = distinct script text",
                       assumptions=["mmap coherence between a MAP_SHARED mapping and pread/pwrite is trusted (Linux)",
                                    "bytes written through a MAP_PRIVATE window are compared only until that window is "
                                    "remapped or removed (that is what MAP_PRIVATE means); the Coq model is compared exactly",
-                                   "file I/O is complete (no short transfers, no ENOSPC) in the model"])
+                                   "file I/O is complete (no short transfers) in the model; the only OS failure modelled "
+                                   "and injected is the refusal to grow the file (RLIMIT_FSIZE/EFBIG standing for ENOSPC/"
+                                   "EDQUOT): shrinking, mmap and msync are not failed",
+                                   "the injected limit is never below the current file size (pwrite inside the file cannot fail)"])
 
 
 def replay(run, path):
